@@ -67,7 +67,7 @@ def _acc(rng):
     return rng.randint(0, M)
 
 def _candidate(rng):
-    fam = rng.choice(["noreversal", "reversal_small", "reversal_large", "zero_at_tick", "constant", "boundary", "early_reversal", "legacy", "invalid", "tiny", "long"])
+    fam = rng.choice(["noreversal", "reversal_small", "reversal_large", "zero_at_tick", "constant", "boundary", "early_reversal", "legacy", "invalid", "tiny", "long", "knife", "knife"])
     s = lambda: rng.choice([1, -1])
     if fam == "invalid":
         return rng.choice([(0, rng.randint(-9, 9), rng.randint(-9, 9)), (rng.randint(1, 9), 0, 0), (-rng.randint(1, 9), -rng.randint(1, 10**6), rng.randint(-5, 5))]), fam
@@ -100,8 +100,21 @@ def _candidate(rng):
         r0 = (tot - accel * k * (k + 1) // 2) // k
         return (abs(m) + rng.choice([0, 1]), r0 + tq(accel, 2), accel), fam
     if fam == "legacy":
-        (st, r, a), _ = _candidate(rng)
+        (st, r, a) = _candidate(rng)[0][:3]
         return (-abs(st), abs(r), a), fam
+    if fam == "knife":
+        # the budget is reached at tick T with a margin of m accumulator units (or missed by -m): the quotient / root the duration is rounded from
+        # lies within ~1e-10..1e-19 (relative) of an integer, so any loss of precision in the solve changes the answer
+        T = int(2 ** rng.uniform(2, 31.9)); r0 = rng.choice([rng.randint(1, M), rng.randint(1, 1 << rng.randint(1, 31)), M - rng.randint(0, 3)])
+        lo_a = -((r0 - 1) // T); hi_a = (M - r0) // T
+        a = rng.choice([0, 0, 0, rng.randint(lo_a, hi_a), rng.randint(max(lo_a, -3), min(hi_a, 3))])
+        rT = r0 + a * T
+        m = rng.choice([0, 1, 1, 2, 3, -1, -2, rT - 1, rT // 2])
+        D = r0 * T + a * T * (T + 1) // 2
+        acc = (m - D) % B; steps = (acc + D - m) >> 31
+        if steps < 1: return (1, 1, 0), "tiny"
+        sg = s()
+        return (steps, sg * (r0 + tq(a, 2)), sg * a, acc if sg > 0 else M - acc), fam
     if fam == "long":
         rate = s() * rng.randint(1, 2000); return (rng.randint(1, 2000), rate, rng.choice([0, 0, 1, -1]) if abs(rate) > 500 else 0), fam
     return (1, 1, 0), fam
@@ -112,9 +125,10 @@ def generate(rng, tier):
     tries = 0
     while len(cases) < n and tries < 20 * n:
         tries += 1
-        (steps, rate, accel), fam = _candidate(rng)
+        cand, fam = _candidate(rng)
+        (steps, rate, accel) = cand[:3]
         if abs(rate) > M or abs(accel) > M or abs(steps) > B: continue
-        acc = _acc(rng) if fam != "invalid" or rng.random() < 0.5 else None
+        acc = cand[3] if len(cand) == 4 else (_acc(rng) if fam != "invalid" or rng.random() < 0.5 else None)
         t = truth(steps, rate, accel, acc)
         if t == "OUT": continue
         entry = 1 if (acc is None and rng.random() < 0.15) else 0
